@@ -148,7 +148,7 @@ class Layouts:
         self._modes[c.id] = mode
         return mode
 
-    def term_of_fn(self, c, extra):
+    def term_of_fn(self, c, extra, ci=0):
         p = prim_of(c)
         if p:
             if p[1].startswith("<"):
@@ -167,9 +167,10 @@ class Layouts:
             sz = self.sized_fn(c.path)
             if sz is not None:
                 # hand-written `let (rest, body) = take(n)(i)?; P(body, ..)`: the same as map_res(take(n), P)
-                amap = {1: CUR}
-                for k, x in enumerate(extra):
-                    amap[k + 2] = x
+                amap = {ci + 1: CUR}
+                rest = [i for i in range(len(extra) + 1) if i != ci]
+                for k, x in zip(rest, extra):
+                    amap[k + 1] = x
                 n = self.an.simp(self.an.interp.subst(sz["n"], amap))
                 return ("mapres", ("take", n, sz["mode"]), ("sym", "sized:%s" % c.path))
             return ("struct", self.self_adt(c), c.path, extra)
@@ -214,6 +215,12 @@ class Layouts:
             return None
         an = self.an
         takes = []
+        cur_arg = 1
+        for i in range(b.arg_count):
+            ty = b.local_ty(i + 1)
+            if ty.startswith("&") and ty.replace("&", "").replace("'", "").split(" ")[-1] == "[u8]":
+                cur_arg = i + 1
+                break
         for blk, t, c in b.calls():
             if c is None or c.nsyn not in FN_CALL:
                 continue
@@ -221,7 +228,7 @@ class Layouts:
             if call is None or call[0] != "call":
                 continue
             st = self.step_of_call(call)
-            if st is not None and st[0][0] == "take" and peel(st[1]) == ("arg", 1):
+            if st is not None and st[0][0] == "take" and peel(st[1]) == ("arg", cur_arg):
                 takes.append((blk, call, st[0]))
         if len(takes) != 1:
             return None
@@ -237,7 +244,7 @@ class Layouts:
             e0 = peel(an.op(b, a0))
             if canon(e0) == taken:
                 inner.append(c2.path)
-            elif find(e0, lambda n: n == ("arg", 1)) or canon(e0) == rest:
+            elif find(e0, lambda n: n == ("arg", cur_arg)) or canon(e0) == rest:
                 return None     # a crate parser applied to bytes outside the delimited body
         if not inner:
             return None
@@ -277,7 +284,22 @@ class Layouts:
             return (self.term_of_callable(a[0]), argt[1][0])
         if not a:
             return None
-        return (self.term_of_fn(c, a[1:]), a[0])
+        ci = self.cursor_param(c)
+        if ci >= len(a):
+            ci = 0
+        return (self.term_of_fn(c, [x for i, x in enumerate(a) if i != ci], ci), a[ci])
+
+    def cursor_param(self, c):
+        """Index of the parameter that carries the input bytes of a crate parser function: the first `&[u8]`
+        parameter (`fn parse_body(&self, i: &[u8], ..)` takes it second)."""
+        b = self.prog.bodies.get(c.path) if c is not None and c.local else None
+        if b is None:
+            return 0
+        for i in range(b.arg_count):
+            ty = b.local_ty(i + 1)
+            if ty.startswith("&") and ty.replace("&", "").replace("'", "").split(" ")[-1] == "[u8]":
+                return i
+        return 0
 
     # ---- struct layouts ---------------------------------------------------
     def parser_layout(self, path):
